@@ -190,6 +190,28 @@ func c14One(c *Ctx, i int, doc string, r *gen.Rng) {
 				n, err = sonic.GetWithOptions(data, o, path...)
 				check(fmt.Sprintf("sonic.GetWithOptions(%+v)", o), n, err)
 			}
+			// the copying searches ("the returned JSON is copied from the input"): the located node must
+			// describe the same value after the caller has reused its buffer for something else
+			reuse := func(b []byte) {
+				for k := range b {
+					b[k] = ' '
+				}
+				copy(b, "[7]")
+			}
+			own := []byte(doc)
+			n, err = sonic.Get(own, path...)
+			reuse(own)
+			check("sonic.Get([]byte) after the caller reused its buffer", n, err)
+			for _, o := range c14Opts {
+				if !o.CopyReturn {
+					continue
+				}
+				own = []byte(doc)
+				n, err = sonic.GetWithOptions(own, o, path...)
+				reuse(own)
+				check(fmt.Sprintf("sonic.GetWithOptions(%+v) after the caller reused its buffer", o), n, err)
+			}
+			c.Count("copying_searches_checked_after_buffer_reuse", 1)
 		})
 		// navigation from a root node, three loading states
 		for mode := 0; mode < 3; mode++ {
